@@ -1,15 +1,18 @@
 package checks
 
 import (
+	"bytes"
 	"encoding/json"
 	"fmt"
 	"sort"
 	"strings"
 	"testing"
 
+	al "github.com/rhysd/actionlint"
 	"pgregory.net/rapid"
 	"verifharness/hx"
 	"verifharness/wf"
+	"verifharness/world"
 	ye "verifharness/yamlemit"
 )
 
@@ -25,6 +28,30 @@ type c09Case struct {
 	EndA   int    `json:"end_a"`   // last line (inclusive)
 	StartB int    `json:"start_b"`
 	EndB   int    `json:"end_b"`
+	Config string `json:"config,omitempty"` // content of .github/actionlint.yaml ("" = no repository)
+}
+
+// c09Lint lints a workflow, inside a temporary repository when a configuration is given.
+func c09Lint(src, config string) ([]Diag, error, any, string) {
+	if config == "" {
+		return lintSafe([]byte(src))
+	}
+	w := world.New()
+	defer w.Cleanup()
+	w.Repo("")
+	w.Write(".github/actionlint.yaml", config)
+	p := w.Write(".github/workflows/w.yml", src)
+	var ds []Diag
+	var err error
+	var pan any
+	func() {
+		defer func() { pan = recover() }()
+		l, _ := al.NewLinter(&bytes.Buffer{}, &al.LinterOptions{WorkingDir: w.Root})
+		var errs []*al.Error
+		errs, err = l.LintFile(p, nil)
+		ds = toDiags(errs)
+	}()
+	return ds, err, pan, ""
 }
 
 func unitDiags(ds []Diag, start, end int) []string {
@@ -39,11 +66,11 @@ func unitDiags(ds []Diag, start, end int) []string {
 }
 
 func checkIndependence(c *c09Case) (key, msg string, n int) {
-	da, err, pan, st := lintSafe([]byte(c.YA))
+	da, err, pan, st := c09Lint(c.YA, c.Config)
 	if pan != nil || err != nil {
 		return "C09/panic-or-fatal", fmt.Sprintf("%v %v %s\n%s", pan, err, st, c.YA), 0
 	}
-	db, err, pan, st := lintSafe([]byte(c.YB))
+	db, err, pan, st := c09Lint(c.YB, c.Config)
 	if pan != nil || err != nil {
 		return "C09/panic-or-fatal", fmt.Sprintf("%v %v %s\n%s", pan, err, st, c.YB), 0
 	}
@@ -146,6 +173,25 @@ func TestC09(t *testing.T) {
 					}
 				}
 			}
+			// a repository configuration (self-hosted label patterns, configuration variables) and
+			// runner labels / variable references spelled in several letter cases across jobs
+			config := ""
+			if rapid.IntRange(0, 2).Draw(rt, "withconfig") == 0 {
+				config = "self-hosted-runner:\n  labels:\n    - GPU-*\n    - linux-*\n    - exact-Label\nconfig-variables:\n  - VAR_A\n  - Var_B\n"
+				labelPool := []string{"GPU-large", "gpu-large", "Gpu-Large", "linux-x", "LINUX-x", "exact-Label", "exact-label", "EXACT-LABEL", "other-label", "ubuntu-latest", "Ubuntu-Latest"}
+				for _, id := range w.RegularJobs {
+					if rapid.Bool().Draw(rt, "relabel") {
+						j := w.Root.Get("jobs").Get(id)
+						j.Del("runs-on")
+						if rapid.Bool().Draw(rt, "labelseq") {
+							j.Set("runs-on", ye.L(ye.S("self-hosted"), ye.S(rapid.SampledFrom(labelPool).Draw(rt, "label"))))
+						} else {
+							j.Set("runs-on", ye.S(rapid.SampledFrom(labelPool).Draw(rt, "label")))
+						}
+					}
+				}
+				pool = append(append([]string{}, pool...), "${{ vars.VAR_A }}", "${{ vars.var_a }}", "${{ vars.VAR_B }}", "${{ vars.NOPE }}", "${{ vars.nope }}")
+			}
 			ne := rapid.IntRange(2, 8).Draw(rt, "nexpr")
 			for i := 0; i < ne && len(cand) > 0; i++ {
 				lf := cand[rapid.IntRange(0, len(cand)-1).Draw(rt, "leaf")]
@@ -230,7 +276,7 @@ func TestC09(t *testing.T) {
 				if removed > 0 {
 					jobsNode.Keys, jobsNode.Vals = ks, vs
 					yb := ye.Emit(w.Root, lay)
-					c := &c09Case{YA: ya, YB: yb, What: fmt.Sprintf("delete-unrelated-jobs (%d removed)", removed), Unit: "job", StartA: sa, EndA: ea, StartB: jobKey().Line, EndB: lastLine(obs)}
+					c := &c09Case{Config: config, YA: ya, YB: yb, What: fmt.Sprintf("delete-unrelated-jobs (%d removed)", removed), Unit: "job", StartA: sa, EndA: ea, StartB: jobKey().Line, EndB: lastLine(obs)}
 					restoreJobs()
 					if !run(c, true) {
 						return
@@ -252,7 +298,7 @@ func TestC09(t *testing.T) {
 				}
 				jobsNode.Keys, jobsNode.Vals = ks, vs
 				yb := ye.Emit(w.Root, lay)
-				c := &c09Case{YA: ya, YB: yb, What: "permute-jobs", Unit: "job", StartA: sa, EndA: ea, StartB: jobKey().Line, EndB: lastLine(obs)}
+				c := &c09Case{Config: config, YA: ya, YB: yb, What: "permute-jobs", Unit: "job", StartA: sa, EndA: ea, StartB: jobKey().Line, EndB: lastLine(obs)}
 				restoreJobs()
 				if !run(c, true) {
 					return
@@ -281,7 +327,7 @@ func TestC09(t *testing.T) {
 			if removed > 0 {
 				steps.Vals = vs
 				yb := ye.Emit(w.Root, lay)
-				c := &c09Case{YA: ya, YB: yb, What: fmt.Sprintf("delete-earlier-steps (%d removed)", removed), Unit: "step", StartA: ssa, EndA: sea, StartB: ostep.Line, EndB: lastLine(ostep)}
+				c := &c09Case{Config: config, YA: ya, YB: yb, What: fmt.Sprintf("delete-earlier-steps (%d removed)", removed), Unit: "step", StartA: ssa, EndA: sea, StartB: ostep.Line, EndB: lastLine(ostep)}
 				steps.Vals = append([]*ye.Node(nil), origSteps...)
 				if !run(c, true) {
 					return
@@ -292,13 +338,13 @@ func TestC09(t *testing.T) {
 			at := rapid.IntRange(0, oi).Draw(rt, "insertat")
 			steps.Vals = append(append(append([]*ye.Node(nil), origSteps[:at]...), extra), origSteps[at:]...)
 			yb := ye.Emit(w.Root, lay)
-			c := &c09Case{YA: ya, YB: yb, What: "insert-step-before (" + extra.Get("env").Get("X").Val + ")", Unit: "step", StartA: ssa, EndA: sea, StartB: ostep.Line, EndB: lastLine(ostep)}
+			c := &c09Case{Config: config, YA: ya, YB: yb, What: "insert-step-before (" + extra.Get("env").Get("X").Val + ")", Unit: "step", StartA: ssa, EndA: sea, StartB: ostep.Line, EndB: lastLine(ostep)}
 			steps.Vals = append([]*ye.Node(nil), origSteps...)
 			if !run(c, true) {
 				return
 			}
 			// (v) repetition
-			c = &c09Case{YA: ya, YB: ya, What: "repeat", Unit: "job", StartA: sa, EndA: ea, StartB: sa, EndB: ea}
+			c = &c09Case{Config: config, YA: ya, YB: ya, What: "repeat", Unit: "job", StartA: sa, EndA: ea, StartB: sa, EndB: ea}
 			run(c, false)
 		})
 	})
